@@ -577,6 +577,9 @@ namespace fixedmath
   [[ nodiscard, gnu::const, gnu::always_inline ]]
   constexpr fixed_t ceil( fixed_t value ) noexcept
     {
+    //ceil of values above last integral value is not representable, value.v + 0xffff would overflow for them
+    if( fixed_unlikely( value.v > fixed_internal{0x7fffffffffff0000ll} ) )
+      return quiet_NaN_result();
     fixed_internal result { (value.v + 0xffff) & ~((1<<16ll)-1) };
     if( value.v <= result ) 
       return as_fixed(result);
